@@ -330,11 +330,13 @@ func runC04(c *engine.Ctx) {
 				return ""
 			}}, "pool insert only after run-id lookup, plugin accept and VerifyNewWorkConn==nil")
 			// the verified message is the plugin's returned content
-			for _, vc := range engine.CallsTo(svcReg, verifyWork) {
-				n++
-				src := engine.Provenance(engine.CallArgs(vc)[1], engine.ProvOpts{NoArgs: true})
-				c.Check(src.HasCall(plugWork), "server.Service.RegisterWorkConn>verified-message", vc.Pos(), len(src.Values),
-					[]string{"verified message: " + src.Summary()}, "VerifyNewWorkConn checks the message returned by the plugin chain")
+			for _, host := range engine.HostsOf(svcReg, verifyWork) { // RegisterWorkConn itself or a helper split out of it
+				for _, vc := range engine.CallsTo(host, verifyWork) {
+					n++
+					src := engine.Provenance(engine.CallArgs(vc)[1], engine.ProvOpts{NoArgs: true})
+					c.Check(src.HasCall(plugWork), "server.Service.RegisterWorkConn>verified-message", vc.Pos(), len(src.Values),
+						[]string{"verified message: " + src.Summary()}, "VerifyNewWorkConn checks the message returned by the plugin chain")
+				}
 			}
 		}
 		// refusing exits are non-nil
